@@ -634,7 +634,7 @@ Qed.
 
 Lemma cand_in r Y y b : Y - 1 <= y <= Y + 1 -> In (inst r y b, b) (rule_candidates r Y).
 Proof.
-  intros H. assert (y = Y - 1 \/ y = Y \/ y = Y + 1) as [->|[->|->]] by lia;
+  intros H. assert (y = Y - 1 \/ y = Y \/ y = Y + 1) as [-> | [-> | ->]] by lia;
     destruct b; unfold rule_candidates, inst; cbn [In]; tauto.
 Qed.
 
